@@ -158,6 +158,11 @@ public:
 
       // If this is a newline continuation, skip it and all leading space.
       int c = *pos;
+      if (c == '\r' && pos + 1 != end && pos[1] == '\n') {
+        // "$\r\n" is a line continuation as well.
+        ++pos;
+        c = '\n';
+      }
       if (c == '\n') {
         ++pos;
         while (pos != end && isspace(*pos))
